@@ -1,6 +1,7 @@
 import Driver.Util
 import RPVerif.Model.Bridge
 import RPVerif.Gen.Bridge
+import RPVerif.Model.Proxy
 open Lean RPVerif.Bridge
 
 namespace Driver.Bridge
@@ -51,6 +52,16 @@ def handle (j : Json) : Json :=
     let ds := rpcRoundTrip sides (jnat j "fuel") dflt (RPVerif.Gen.rpcResCopied.contains "fwd")
                 (jnat j "r") (jnat j "h") (msgOf (jget j "msg"))
     jl (sides.map (fun t => jl [jn t, jl ((ds.filter (fun d => d.1 = t)).map (fun d => jmsg d.2))]))
+  else if op == "proxy_monitor" then
+    -- the monitor of the proxy service over a history: per pass what the sessions do before it (times in ticks)
+    let actOf := fun (a : Json) => match asArr a with
+      | [.str "reg", v]  => RPVerif.Proxy.Act.reg (asNat v)
+      | [.str "hb", v]   => RPVerif.Proxy.Act.hb (asNat v)
+      | [_, v]           => RPVerif.Proxy.Act.skip (asNat v)
+      | _                => RPVerif.Proxy.Act.skip 0
+    let script := (jarr j "script").map (fun p => (asArr p).map actOf)
+    let r := RPVerif.Proxy.run RPVerif.Gen.proxyEvictionListFresh (jnat j "T") {} script
+    Json.mkObj [("ended", jl (r.ended.map (fun e => jl [jn e.1, jn e.2]))), ("alive", jl (r.clients.map (fun c => jn c.sid)))]
   else Json.str "bad-op"
 
 end Driver.Bridge
